@@ -262,6 +262,11 @@ func (e *Engine) ptrTerm(v SV) string {
 		if p.Kind == pkElem && len(p.Path) == 0 && e.elemPointable[e.typeKey(p.Root)] {
 			return e.elemPtrTerm(p.Ref, p.Idx)
 		}
+		if p.Kind == pkHeap && len(p.Path) > 0 {
+			if id, ok := e.fieldPtrID(p.Root, p.Path); ok {
+				return e.fieldPtrTerm(p.Ref, id)
+			}
+		}
 		panic(engErr(fmt.Sprintf("interior/local pointer escapes (kind %d, path %v, root %v)", p.Kind, p.Path, p.Root)))
 	}
 	panic(engErr(fmt.Sprintf("ptrTerm: %T", v)))
@@ -389,34 +394,88 @@ func (e *Engine) elemPtrTerm(ref, idx string) string {
 	}
 	// a backing reference of 0 encodes the nil pointer (see mergeSV)
 	t := vc.define("ep", "Int", fmt.Sprintf("(ite (= %s 0) 0 (eptr %s %s))", ref, ref, idx))
-	vc.assume("true", fmt.Sprintf("(=> (not (= %s 0)) (and (= (eptr_b %s) %s) (= (eptr_i %s) %s) (< %s %s)))", ref, t, ref, t, idx, t, elemPtrLimit))
+	vc.declareFun("pkind", []string{"Int"}, "Int")
+	vc.assume("true", fmt.Sprintf("(=> (not (= %s 0)) (and (= (eptr_b %s) %s) (= (eptr_i %s) %s) (< %s %s) (= (pkind %s) 1)))", ref, t, ref, t, idx, t, elemPtrLimit, t))
 	return t
 }
 
 func (e *Engine) heapPtr(ref string, root types.Type) *PtrSV {
 	p := &PtrSV{Kind: pkHeap, Ref: ref, Root: root}
-	if e.elemPointable[e.typeKey(root)] && !strings.HasPrefix(ref, "wm!") && ref != "0" {
+	if (e.elemPointable[e.typeKey(root)] || len(e.fieldPointable[e.typeKey(root)]) > 0) && !strings.HasPrefix(ref, "wm!") && ref != "0" {
 		p.Either = true
 	}
 	return p
 }
 
-// splitEither: the two readings of an Either pointer and the condition selecting the
-// element reading.
-func (e *Engine) splitEither(p *PtrSV) (isElem string, asElem, asHeap *PtrSV) {
+// Field pointers that escape into terms (&x.f stored in memory or passed on): encoded as
+// fptr(object, id) where id names a registered (struct type, field path); same negative
+// range as element pointers, told apart by pkind (1 = element, 2 = field).
+type fieldPtrEntry struct {
+	root types.Type
+	path []pathEl
+	leaf types.Type
+}
+
+func fieldPathKey(e *Engine, root types.Type, path []pathEl) string {
+	k := e.typeKey(root)
+	for _, p := range path {
+		if p.field < 0 {
+			return ""
+		}
+		k += fmt.Sprintf(".%d", p.field)
+	}
+	return k
+}
+
+func (e *Engine) fieldPtrID(root types.Type, path []pathEl) (int, bool) {
+	k := fieldPathKey(e, root, path)
+	if k == "" {
+		return 0, false
+	}
+	id, ok := e.fieldPtrIDs[k]
+	return id, ok
+}
+
+func (e *Engine) fieldPtrTerm(ref string, id int) string {
+	vc := e.vc
+	vc.declareFun("fptr", []string{"Int", "Int"}, "Int")
+	vc.declareFun("fptr_b", []string{"Int"}, "Int")
+	vc.declareFun("fptr_k", []string{"Int"}, "Int")
+	vc.declareFun("pkind", []string{"Int"}, "Int")
+	t := vc.define("fp", "Int", fmt.Sprintf("(fptr %s %d)", ref, id))
+	vc.assume("true", fmt.Sprintf("(and (= (fptr_b %s) %s) (= (fptr_k %s) %d) (< %s %s) (= (pkind %s) 2))", t, ref, t, id, t, elemPtrLimit, t))
+	return t
+}
+
+type ptrAlt struct {
+	cond string
+	ptr  *PtrSV
+}
+
+// alternatives: the readings of an Either pointer other than "heap object", each with the
+// condition selecting it; the heap reading is the default.
+func (e *Engine) alternatives(p *PtrSV) (alts []ptrAlt, heap *PtrSV) {
 	vc := e.vc
 	is := e.ar.idxSort()
-	vc.declareFun("eptr_b", []string{"Int"}, "Int")
-	vc.declareFun("eptr_i", []string{"Int"}, is)
-	isElem = fmt.Sprintf("(< %s %s)", p.Ref, elemPtrLimit)
+	vc.declareFun("pkind", []string{"Int"}, "Int")
 	h := *p
 	h.Either = false
-	el := &PtrSV{Kind: pkElem, Ref: fmt.Sprintf("(eptr_b %s)", p.Ref), Idx: fmt.Sprintf("(eptr_i %s)", p.Ref), Root: p.Root, Path: p.Path}
-	if len(p.Path) > 0 {
-		// Root of a heap pointer with a path is the struct type itself; same for elements
-		el.Root = p.Root
+	neg := fmt.Sprintf("(< %s %s)", p.Ref, elemPtrLimit)
+	if e.elemPointable[e.typeKey(p.Root)] {
+		vc.declareFun("eptr_b", []string{"Int"}, "Int")
+		vc.declareFun("eptr_i", []string{"Int"}, is)
+		el := &PtrSV{Kind: pkElem, Ref: fmt.Sprintf("(eptr_b %s)", p.Ref), Idx: fmt.Sprintf("(eptr_i %s)", p.Ref), Root: p.Root, Path: p.Path}
+		alts = append(alts, ptrAlt{and(neg, fmt.Sprintf("(= (pkind %s) 1)", p.Ref)), el})
 	}
-	return isElem, el, &h
+	for _, id := range e.fieldPointable[e.typeKey(p.Root)] {
+		ent := e.fieldPtrs[id]
+		vc.declareFun("fptr_b", []string{"Int"}, "Int")
+		vc.declareFun("fptr_k", []string{"Int"}, "Int")
+		fp := &PtrSV{Kind: pkHeap, Ref: fmt.Sprintf("(fptr_b %s)", p.Ref), Root: ent.root,
+			Path: append(append([]pathEl(nil), ent.path...), p.Path...)}
+		alts = append(alts, ptrAlt{and(neg, and(fmt.Sprintf("(= (pkind %s) 2)", p.Ref), fmt.Sprintf("(= (fptr_k %s) %d)", p.Ref, id))), fp})
+	}
+	return alts, &h
 }
 
 // computeElemPointable scans the loaded packages for &s[i] expressions of struct
@@ -424,6 +483,10 @@ func (e *Engine) splitEither(p *PtrSV) (isElem string, asElem, asHeap *PtrSV) {
 // store or field access: pointers to such elements can reach pointer-typed variables.
 func (e *Engine) computeElemPointable() {
 	e.elemPointable = map[string]bool{}
+	e.fieldPtrIDs = map[string]int{}
+	e.fieldPointable = map[string][]int{}
+	e.fieldPtrs = nil
+	defer e.computeFieldPointable()
 	var paths []string
 	for p := range e.spkgs {
 		paths = append(paths, p)
@@ -466,6 +529,81 @@ func (e *Engine) computeElemPointable() {
 						}
 						e.elemPointable[e.typeKey(pt.Elem())] = true
 					}
+				}
+			}
+		}
+	}
+}
+
+// computeFieldPointable registers every &x.f (single field of a struct reached through a
+// pointer) in the repository packages whose address is used as a value - stored, passed,
+// returned, converted to an interface.
+func (e *Engine) computeFieldPointable() {
+	var paths []string
+	for p := range e.spkgs {
+		paths = append(paths, p)
+	}
+	sortStrings(paths)
+	for _, path := range paths {
+		if !strings.HasPrefix(path, "github.com/enfein/mieru") {
+			continue
+		}
+		for _, fn := range e.pkgFunctions(path) {
+			for _, b := range fn.Blocks {
+				for _, in := range b.Instrs {
+					fa, ok := in.(*ssa.FieldAddr)
+					if !ok {
+						continue
+					}
+					refs := fa.Referrers()
+					if refs == nil {
+						continue
+					}
+					escapes := false
+					for _, r := range *refs {
+						switch u := r.(type) {
+						case *ssa.Store:
+							if u.Val == ssa.Value(fa) {
+								escapes = true
+							}
+						case *ssa.Call:
+							// receiver/argument of a static call is handled symbolically (inlined or
+							// contract environment); only atomic pointer stores keep the address
+							if c := u.Common(); c.StaticCallee() != nil && strings.HasPrefix(funcKey(c.StaticCallee()), "sync/atomic.Pointer.") {
+								for k, a := range c.Args {
+									if k > 0 && a == ssa.Value(fa) {
+										escapes = true
+									}
+								}
+							}
+						case *ssa.MakeInterface, *ssa.Return, *ssa.Phi:
+							_ = u
+							escapes = true
+						}
+					}
+					if !escapes {
+						continue
+					}
+					pt, ok := fa.X.Type().Underlying().(*types.Pointer)
+					if !ok {
+						continue
+					}
+					st, ok := pt.Elem().Underlying().(*types.Struct)
+					if !ok {
+						continue
+					}
+					root := pt.Elem()
+					pth := []pathEl{{field: fa.Field}}
+					k := fieldPathKey(e, root, pth)
+					if _, dup := e.fieldPtrIDs[k]; dup {
+						continue
+					}
+					id := len(e.fieldPtrs)
+					leaf := st.Field(fa.Field).Type()
+					e.fieldPtrs = append(e.fieldPtrs, fieldPtrEntry{root: root, path: pth, leaf: leaf})
+					e.fieldPtrIDs[k] = id
+					lk := e.typeKey(leaf)
+					e.fieldPointable[lk] = append(e.fieldPointable[lk], id)
 				}
 			}
 		}
